@@ -20,8 +20,11 @@ Proof.
   induction p as [|c p IH]; intros i j Hi Hj.
   - cbn [pevalM peval]. unfold zeroQ. symmetry. apply sumQ_zero'. intros; ring.
   - cbn [pevalM peval]. unfold mmulQ.
+    rewrite (sumQ_ext (fun k => V i k * Qred (c + lam k * peval p (lam k)) * V j k)
+                      (fun k => V i k * (c + lam k * peval p (lam k)) * V j k))
+      by (intros; rewrite Qred_correct; reflexivity).
     rewrite (sumQ_ext _ (fun l => A i l * sumQ (fun k => V l k * peval p (lam k) * V j k) n)).
-    2:{ intros l Hl. rewrite tab_spec by assumption. rewrite (IH l j Hl Hj). reflexivity. }
+    2:{ intros l Hl. rewrite tab_spec by assumption. rewrite Qred_correct. rewrite (IH l j Hl Hj). reflexivity. }
     rewrite sumQ_swap_scal.
     rewrite (sumQ_ext (fun k => sumQ (fun l => A i l * (V l k * peval p (lam k) * V j k)) n)
                       (fun k => V i k * (lam k * peval p (lam k)) * V j k)).
